@@ -194,7 +194,7 @@ PLAN["C08"] = {
                     "hole punching is off in victims (asynchronous reclamation is C06's subject)"],
     "technique": "generated pre-state x operation, strace-driven enumeration of crash points and single-call failures, reopen-vs-model oracle",
     "quick": {"wall": 170, "tests": [{"run": "TestC08", "shards": 16, "checks": 30, "timeout": 150, "shrink": "30s"}]},
-    "thorough": {"wall": 1500, "tests": [{"run": "TestC08", "shards": 16, "checks": 40, "timeout": 1400, "shrink": "120s"}]},
+    "thorough": {"wall": 1500, "tests": [{"run": "TestC08", "shards": 16, "checks": 250, "timeout": 1400, "shrink": "120s"}]},
 }
 
 PLAN["C17"] = {
@@ -265,3 +265,11 @@ PLAN["C10"]["quick"]["tests"].append({"run": "TestC10Promotion", "shards": 4, "c
 PLAN["C10"]["thorough"]["tests"][0]["shards"] = 9
 PLAN["C10"]["thorough"]["tests"].append({"run": "TestC10Promotion", "shards": 4, "checks": 900, "timeout": 840})
 PLAN["C10"]["rule"] += "; TestC10Promotion: stack programs with faulty writes and rebuilds, promoted replica's counter = source's at every promotion, all RW replicas report the same count at the end"
+
+PLAN["C07"]["quick"]["tests"][0]["shards"] = 9
+PLAN["C07"]["quick"]["tests"].append({"run": "TestC07Window", "shards": 3, "checks": 8, "timeout": 130, "tags": ("verif", "debug"), "env": {"VERIF_LUNMAP_WINDOW": 1}})
+PLAN["C07"]["quick"]["tests"][1]["checks"] = 3
+PLAN["C07"]["thorough"]["tests"][0]["shards"] = 7
+PLAN["C07"]["thorough"]["tests"].append({"run": "TestC07Window", "shards": 3, "checks": 150, "timeout": 840, "tags": ("verif", "debug"), "env": {"VERIF_LUNMAP_WINDOW": 1}})
+PLAN["C07"]["rule"] += ("; TestC07Window: the merge-tier programs against a build of the repository with its own 'debug' tag, whose inject.AddUpdateLUNMapTimeout gives a rendezvous between "
+                        "UpdateLUNMap's preload and its merge - the foreground writes are issued exactly inside that window (1 s per rebuild)")
